@@ -390,6 +390,30 @@ func emit(g group) (string, []string) {
 				bs = append(bs, fmt.Sprintf("(%s : %s)", p.Lean, p.Type))
 			}
 			fmt.Fprintf(&b, "/-- %s: %s %s  `%s` %s -/\ndef %s %s : Bool := %s\n", f.File, f.Func, f.Sel, strings.ReplaceAll(show(e), "-/", "- /"), f.Doc, f.Name, strings.Join(bs, " "), s)
+		case "arg":
+			// string literal passed as argument #Ident of the call that is the Sel-th return expression
+			fd := findFunc(af, f.Func)
+			if fd == nil {
+				fail("function not found")
+				continue
+			}
+			_, rets := conds(fd)
+			parts := strings.Split(f.Sel, "#")
+			n, _ := strconv.Atoi(parts[1])
+			ai, _ := strconv.Atoi(f.Ident)
+			done := false
+			if n < len(rets) {
+				if ce, ok := rets[n].(*ast.CallExpr); ok && ai < len(ce.Args) {
+					if bl, ok := ce.Args[ai].(*ast.BasicLit); ok && bl.Kind == token.STRING {
+						sv, _ := strconv.Unquote(bl.Value)
+						fmt.Fprintf(&b, "/-- %s: %s %s argument %d of `%s` -/\ndef %s : String := %s\n", f.File, f.Func, f.Sel, ai, show(rets[n]), f.Name, leanStr(sv))
+						done = true
+					}
+				}
+			}
+			if !done {
+				fail("call argument literal not found")
+			}
 		case "resets":
 			fd := findFunc(af, f.Func)
 			if fd == nil {
